@@ -82,6 +82,8 @@ def main():
     # 4/5. correspondence + property predicate on the implementation + known findings
     mod.run(ctx)
 
+    if ctx.divergences and os.environ.get('VERIF_DEBUG'):
+        print('DEBUG divergences:', core.write_replay(pid, 'divergences', ctx.divergences))
     for f in ctx.known_reproduced:
         print('KNOWN-FINDING: property=%s %s' % (pid, f))
 
